@@ -201,6 +201,13 @@ func (s *Service) beaconBlockRoot(ctx context.Context,
 		}
 		return
 	}
+	if rootResponse == nil || rootResponse.Data == nil {
+		errCh <- &beaconBlockRootError{
+			provider: name,
+			err:      errors.New("beacon block root nil"),
+		}
+		return
+	}
 	s.log.Trace().Str("provider", name).Dur("elapsed", time.Since(started)).Stringer("root", rootResponse.Data).Msg("Obtained beacon block root")
 
 	slot, err := s.blockRootToSlotCache.BlockRootToSlot(ctx, *rootResponse.Data)
